@@ -9,21 +9,30 @@ follows edge T; an input set at T is first seen by the flip-flops at edge T+1). 
 piecewise-constant traces; all judging is done after the simulation on these traces.
 
 Workload (reactive and seeded; the driver only looks at the DUT outputs to find out *where* it is, e.g. "the device chirp
-has ended", never to decide what is correct).  Four families of sessions:
-  playground  FS-only / LS-only device: SE0 pulses around 2.5 us and 5 us (147..153, 296..304, halves, split by 1-3 cycle
-              glitches), restriction released/asserted a few cycles around the reset decision, VBUS loss, soft disconnect,
-              3 ms idle (exact, 1..10 cycles short + glitch, split in two parts, 3 ms of a non-idle state first), SE0 pulses
-              around 2.5 us while suspended, resume, reset out of suspend.
-  handshake   HS-capable device: reset, (bus_busy around the chirp start), line K/SE0/J during the device chirp, host chirp
-              trains with 0-6 pairs, states of 152.. cycles, states just below 150, states split by glitches, SE0 gaps, too few
-              pairs first and the rest later; then at high speed: restriction pulses of 1..n cycles, VBUS loss,
-              disconnect; a second reset + handshake.
-  hs_idle     ... then 3 ms of SE0 at high speed (exact or split by a glitch), the 200 us window ending in SE0 / K / J /
-              a J that appears or disappears in the last cycles, restriction asserted inside that window; HS suspend,
-              SE0 pulses around 2.5 us, resume to HS, or reset out of suspend; afterwards drop to FS, FS suspend and resume
-              (a stale "was high speed" flag would re-enter HS here).
-  timeout     handshake whose train holds at most two valid pairs (plus junk), 2.5 ms time-out, then a second reset
-              whose train completes only after further pairs (stale pair count).
+has ended", never to decide what is correct).  Two families of sessions:
+  playground  FS-only / LS-only device (27 %): SE0 pulses around 2.5 us and 5 us (147..153, 296..304, halves, split by 1-3
+              cycle glitches), restriction released / re-asserted 0-6 cycles around the reset decision, VBUS loss, soft
+              disconnect, 3 ms idle in the variants plain / split by a glitch / preceded by 10-80 k cycles of a non-idle
+              state (K, SE1, the J of the other speed) / 1..10 cycles short + glitch / 3 ms of a non-idle state only, SE0
+              pulses around 2.5 us while suspended (glitches that are not a resume K), resume, reset out of suspend.
+  hs          HS-capable device (73 %), one of the plans
+              resume_then_fs_suspend  handshake, 3 ms SE0 at HS, 200 us window ending in J -> HS suspend, SE0 pulses, resume to
+                                      HS, drop to FS (restriction / VBUS), FS suspend + resume (a stale "was high speed"
+                                      flag would re-enter HS here)
+              hs_reset_chain          handshake, 3 ms SE0 (exact, 1..10 short + glitch, or split), window ending in SE0 / K /
+                                      SE1 / a J that disappears 2..12 cycles before the decision, restriction asserted inside
+                                      the window (45 %), next handshake, possibly once more
+              timeout                 handshake whose train holds at most two valid pairs plus junk; at the 2.5 ms deadline the
+                                      device is on purpose either waiting for a K / J or 1..151 cycles into timing one;
+                                      optionally a second reset + handshake (stale pair count)
+              handshake_exits         two handshakes with bus_busy around the chirp start, restriction toggles during the
+                                      device chirp, line K / SE0 / J during the chirp; HS left by restriction pulses of 1, 2, 3, n
+                                      cycles, VBUS loss, soft disconnect
+              suspend_reset           HS suspend, SE0 pulses around 2.5 us, reset out of suspend (restricted or not)
+              walk                    budgeted random walk over all of the above
+              Host chirp trains: gap, 0-2 good pairs (states 152..3000 cycles), then 1-4 repetitions of hostile material
+              (K or J of 144..149 / 100..149 / 1..40 cycles, states split in two <150 parts by a 1-3 cycle glitch, SE0 between
+              K and J, J J), then good pairs.
 
 Oracle (independent reference; constants from USB 2.0 7.1.7.5/7.1.7.6 in 60 MHz cycles: 2.5 us = 150, 5 us = 300,
 200 us = 12 000, 1 ms = 60 000, 2.5 ms = 150 000, 3 ms = 180 000; UTMI encodings XcvrSelect 0/1/2 = HS/FS/LS, OpMode
@@ -56,15 +65,16 @@ from bisect import bisect_right
 PROPERTY = "C19"
 CASES = {"quick": 88, "thorough": 1600}
 TIMEOUT = {"quick": 1500, "thorough": 6 * 3600}
-RULE = ("case = one reactive session of 0.2-1.2 M cycles on the real-constant USBResetSequencer drawn from four families "
-        "(FS/LS playground, HS handshake, HS idle/suspend/reset, handshake time-out); durations drawn around 150/300/12000/"
-        "150000/180000 cycles +-3, 1-3 cycle glitches, restriction / VBUS / disconnect / bus_busy toggles; non-trivial = >= 2 "
-        "judged bus resets and one judged HS entry, suspend entry or restricted reset; distinct = hash of all input changes")
+RULE = ("case = one reactive session of 0.2-0.9 M cycles on the real-constant USBResetSequencer: FS/LS-only playground or one "
+        "of six HS plans (resume+FS suspend, HS reset chain, handshake time-out, handshake exits, suspend reset, random walk); "
+        "durations drawn around 150/300/12000/150000/180000 cycles, 1-3 cycle glitches, restriction / VBUS / disconnect / "
+        "bus_busy toggles; non-trivial = >= 2 judged bus resets and one judged HS entry, suspend entry or restricted reset; "
+        "distinct = hash of all input changes")
 REQUIRED_BINS = [
     "reset_vbus_absent", "reset_fs_5us", "reset_suspended_2p5us", "reset_hs_3ms_200us",
     "se0_just_below_5us_no_reset", "se0_split_by_glitch", "se0_just_below_2p5us_suspended",
     "hs_via_chirp", "hs_via_resume", "train_state_just_below_2p5us", "train_state_split_by_glitch",
-    "train_two_pairs_then_junk", "handshake_timeout_fallback", "second_handshake_after_partial",
+    "train_two_pairs_then_junk", "handshake_timeout_fallback", "handshake_deadline_inside_chirp_state",
     "suspend_fs", "suspend_ls", "suspend_hs", "idle_split", "non_idle_prefix_before_idle_fs",
     "restriction_at_hs", "restriction_in_hs_detect_window",
     "reset_while_restricted", "restriction_toggled_near_reset", "hs_window_j_at_decision", "hs_window_nonj_at_decision",
@@ -459,8 +469,7 @@ def make_train(rng, kind):
                     want = FS_J
             out.append((v, n))
         train = out
-        if want == FS_J and pairs == 2:
-            marks.append("tail_must_not_be_j")           # a long J after the train would legally complete the third pair
+        marks.append(("scan", want, pairs))                 # what a receiver of this train waits for at its end
     else:
         for _ in range(4):
             train += [(FS_K, good()), (FS_J, good())]
@@ -502,16 +511,34 @@ async def run_handshake(d, kind, busy=False, restr_games=True):
     if rng.random() < 0.5:
         d.set("line", SE0)
     train, marks = make_train(rng, kind)
+    t_chirp_end = d.T
+    scan = None
     for m in marks:
-        if m != "tail_must_not_be_j":
+        if isinstance(m, tuple):
+            scan = m
+        else:
             d.mark(m)
     for v, n in train:
         if not d.in_chirp_mode():
             break
         await d.line(v, n)
     if kind == "partial":
-        tail = [SE0, SE0, FS_K] + ([] if "tail_must_not_be_j" in marks else [FS_J])
-        d.set("line", rng.choice(tail))
+        # no third pair before the 2.5 ms deadline (about t_chirp_end + 150 000).  What the device is doing *at* the
+        # deadline is chosen on purpose: waiting for the next K / J, or in the middle of timing a K / J state.
+        _s, want, pairs = scan
+        other = FS_J if want == FS_K else FS_K
+        d.set("line", rng.choice([SE0, SE0, other]))
+        if rng.random() < 0.5 and d.in_chirp_mode():
+            delta = rng.choice([rng.randint(1, 12), rng.randint(1, 151), rng.randint(140, 151)])
+            n = t_chirp_end + T_2P5MS - 1 - delta - d.T
+            if n > 0:
+                await d.wait(n)
+                if d.in_chirp_mode():
+                    d.mark("timeout_in_state")
+                    await d.line(want, rng.randint(160, 400))
+                    if pairs < 2 and rng.random() < 0.5:
+                        await d.line(other, rng.randint(160, 400))
+                    d.set("line", SE0)
         await d.until(p_not_chirp_mode, T_2P5MS + 400)
         d.mark("timeout_wait")
     else:
@@ -896,6 +923,9 @@ async def plan_hs_reset_chain(d):
 async def plan_timeout(d):
     rng = d.rng
     await fs_to_handshake(d, "partial", busy_p=0.3, restr_p=0.2)
+    if rng.random() < 0.5:
+        await se0_probes(d, rng.randint(1, 4), T_5US, allow_reset=False)
+        return
     d.mark("second_handshake")
     if await fs_to_handshake(d, "valid") == "hs":
         await hs_games(d)
@@ -929,9 +959,9 @@ async def plan_suspend_reset(d):
         await se0_probes(d, rng.randint(1, 4), T_5US, allow_reset=d.restricted())
 
 
-PLANS = [("resume_then_fs_suspend", plan_resume_then_fs_suspend, 22), ("hs_reset_chain", plan_hs_reset_chain, 20),
-         ("timeout", plan_timeout, 20), ("handshake_exits", plan_handshake_exits, 16),
-         ("suspend_reset", plan_suspend_reset, 11), ("walk", None, 11)]
+PLANS = [("resume_then_fs_suspend", plan_resume_then_fs_suspend, 22), ("hs_reset_chain", plan_hs_reset_chain, 18),
+         ("timeout", plan_timeout, 27), ("handshake_exits", plan_handshake_exits, 14),
+         ("suspend_reset", plan_suspend_reset, 10), ("walk", None, 9)]
 
 
 async def session_hs(d):
@@ -1203,6 +1233,9 @@ def workload_bins(res, d, out_tr, info, end):
                 res.bin("non_idle_3ms_no_suspend_ls")
     for t in m.get("wrong_prefix", []):
         res.bin("non_idle_prefix_before_idle_ls" if out_tr["speed"].at(t) == SPD_LS else "non_idle_prefix_before_idle_fs")
+    for t in m.get("timeout_in_state", []):
+        if chirp.at(t):
+            res.bin("handshake_deadline_inside_chirp_state")
     for t in m.get("restr_in_handshake", []):
         if chirp.at(t):
             res.bin("restriction_during_handshake")
